@@ -38,8 +38,8 @@ var envManaged = []string{
 
 type nullNoticer struct{}
 
-func (nullNoticer) Println(...any)           {}
-func (nullNoticer) Printf(string, ...any)    {}
+func (nullNoticer) Println(...any)              {}
+func (nullNoticer) Printf(string, ...any)       {}
 func (nullNoticer) Write(p []byte) (int, error) { return len(p), nil }
 
 func NewRuntime(root string, t *testing.T) *Runtime {
